@@ -348,13 +348,15 @@ def oracle(case, out):
         # served: unless a user plugin intervened or the connect failed, the origin was contacted
         passive = all(t[h] == ['pass'] or t[h][0] == 'modify' for t in case['tables'] for h in ('buc', 'hcr')) and \
             all(t['dns'] == ['none'] for t in case['tables'])
-        if passive and case['steps'][0][2]:
+        if passive and case['steps'][0][2] and 0 < spec['port'] <= 65535:     # out-of-range ports are refused before any connect (f918c36)
             if out['connect_log'][:1] != [(spec['host'].decode(), spec['port'])]:
                 return 'authenticated request was not served: connect_log %r' % (out['connect_log'],)
             if tunnel and not out['client_out'].startswith(b'HTTP/1.1 200 '):
                 return 'authenticated CONNECT did not get a 200'
             if not tunnel and not queued_up.startswith(spec['method'] + b' '):
                 return 'authenticated request was not forwarded'
+        if not 0 < spec['port'] <= 65535 and out['connect_log']:
+            return 'request-target port %d outside 1..65535 but an upstream connection was attempted' % spec['port']
         return None
     return None
 
